@@ -75,10 +75,27 @@ def gen():
         out.append(G.coq_list("validate_%s_guards" % name, G.guards_of(plain, {"e." + name: "none"}, rel + ":validate_entries")))
         out.append(G.coq_list("validate_%s_guards_indexed" % name, indexed_guards(b, name, rel + ":validate_entries")))
     pr = F.fn_body(t, "parse_record", rel)
-    if not re.search(r"if\s+surface\.is_empty\(\)\s*\{\s*return\s+rec\.ctx\.err\(BuildFailure::EmptySurface\)", pr):
+    # the surface checks of parse_record: on the DECODED surface (the variable bound to `rec.get(0, .., unescape)?`), or on the
+    # CSV text of the field inside the parser handed to rec.get(0, ..) before it calls unescape.  For the empty check the two
+    # are the same thing (no escape decodes to nothing); for the NUL check they are not: \\u0000 / \\u{0} decode to U+0000
+    msurf = re.search(r"let\s+(\w+)\s*=\s*rec\.get\(\s*0\s*,", pr)
+    if not msurf:
+        raise F.FactError("parse_record: the surface is no longer `rec.get(0, ..)`")
+    sv = msurf.group(1)
+    e0 = F._close(pr, pr.index("rec.get(", msurf.start()) + len("rec.get(") - 1)
+    field0 = pr[msurf.start():e0] if e0 > 0 else ""
+    after = pr[e0:] if e0 > 0 else pr
+    mraw = re.search(r"\|(\w+)\|", field0)
+    rawv = mraw.group(1) if mraw else None
+    raw_part = field0[:field0.index("unescape")] if "unescape" in field0 else field0
+    empty_decoded = re.search(r"if\s+%s\.is_empty\(\)\s*\{\s*return\s+rec\s*\.ctx\s*\.err\(BuildFailure::EmptySurface\)" % sv, after)
+    empty_raw = rawv and re.search(r"if\s+%s\.is_empty\(\)\s*\{\s*return\s+Err\(BuildFailure::EmptySurface\)" % rawv, raw_part)
+    if not (empty_decoded or empty_raw):
         raise F.FactError("parse_record: empty-surface check not recognised")
-    nul = re.search(r"if\s+surface\.contains\('\\0'\)\s*\{\s*return\s+rec\s*\.ctx\s*\.err\(", pr)
-    out.append("(* a surface (trie key) containing a NUL byte is rejected by parse_record (else yada asserts) *)\nDefinition nul_surface_is_error : bool := %s.\n" % ("true" if nul else "false"))
+    nul = re.search(r"if\s+%s\.contains\('\\0'\)\s*\{\s*return\s+rec\s*\.ctx\s*\.err\(" % sv, after)
+    nul_raw = rawv and re.search(r"if\s+%s\.contains\('\\0'\)\s*\{\s*return\s+Err\(" % rawv, raw_part)
+    out.append("(* a surface (trie key) whose decoded value contains U+0000 is rejected by parse_record (else yada asserts) *)\nDefinition nul_surface_is_error : bool := %s.\n" % ("true" if nul else "false"))
+    out.append("(* a surface whose CSV text contains a NUL byte is rejected (by the check above, or by one on the text before unescape) *)\nDefinition raw_nul_surface_is_error : bool := %s.\n" % ("true" if (nul or nul_raw) else "false"))
     sb = F.fn_body(t, "should_index", rel)
     m = re.fullmatch(r"\s*self\.left_id\s*(>=|>)\s*(-?[0-9]+)\s*", sb)
     if not m:
